@@ -16,13 +16,13 @@ def f(o):
     return 1
 
 
+rc = 0
 try:
     f(O())
-    print("no error")
-    sys.exit(0)
+    print("no error (the declaration is a no-op, as in plain Python)")
 except PteraNameError as e:
-    print("PteraNameError (as the property asks):", e)
-    sys.exit(0)
-except BaseException as e:
+    print("PteraNameError:", e)
+except Exception as e:
     print("reproduced:", type(e).__name__, e)
-    sys.exit(1)
+    rc = 1
+sys.exit(rc)
